@@ -67,13 +67,24 @@ func runRobust(c *ctx) error {
 			return
 		}
 		st := -1
-		if resp, err := s.HTTP.Do(req); err == nil {
-			io.Copy(io.Discard, resp.Body)
-			resp.Body.Close()
-			st = resp.StatusCode
+		errText := ""
+		// these requests fail validation and change nothing: a transport-level hiccup of the
+		// loopback connection is retried, it is not an observation about the server
+		for attempt := 0; attempt < 4 && st == -1; attempt++ {
+			if attempt > 0 {
+				time.Sleep(50 * time.Millisecond)
+				req, _ = http.NewRequest(method, url, bytes.NewReader(body))
+			}
+			if resp, err := s.HTTP.Do(req); err == nil {
+				io.Copy(io.Discard, resp.Body)
+				resp.Body.Close()
+				st = resp.StatusCode
+			} else {
+				errText = err.Error()
+			}
 		}
 		pst, _ := s.Get("/api/v1/equipment")
-		t.Emit(hx.J{"a": "Http", "ep": ep, "method": method, "cls": cls, "query": query, "status": st, "probe": pst, "panic": lc.takePanics() > 0})
+		t.Emit(hx.J{"a": "Http", "ep": ep, "method": method, "cls": cls, "query": query, "status": st, "probe": pst, "panic": lc.takePanics() > 0, "err": errText, "bodylen": len(body)})
 	}
 	eps := []string{"all-device-stats", "authorized-servers", "authorize-equipment", "equipment", "equipment-migrate", "register-gca", "recent-reports", "geo-stats", "archive"}
 	allowed := map[string][]string{"authorize-equipment": {"POST"}, "equipment-migrate": {"POST"}, "register-gca": {"POST"}, "authorized-servers": {"GET", "POST"}}
